@@ -1438,7 +1438,7 @@ def compile_pattern(compiler, pattern):
         head, args, kwargs = value
         keywords, values = zip(*kwargs) if kwargs else ([], [])
         for kwd in keywords:
-            if kwd.name in ("None", "True", "False"):
+            if mangle(kwd.name) in ("None", "True", "False"):
                 compiler._syntax_error(kwd, "Can't use a constant as an attribute name")
         cls = compiler.compile(
           # `head` could be a symbol or a dotted form.
